@@ -41,6 +41,32 @@ TRANSPARENT = {
 }
 
 
+GENERIC_SENSITIVE = {"Rng::gen", "Rng::r#gen"}
+
+
+def _last_generic(g):
+    """last generic argument of a substs string like `[Self, u8]`"""
+    g = g.strip()
+    if g.startswith("[") and g.endswith("]"):
+        g = g[1:-1]
+    depth = 0
+    cur = ""
+    parts = []
+    for ch in g:
+        if ch in "<([":
+            depth += 1
+        elif ch in ">)]":
+            depth -= 1
+        if ch == "," and depth == 0:
+            parts.append(cur.strip())
+            cur = ""
+        else:
+            cur += ch
+    if cur.strip():
+        parts.append(cur.strip())
+    return cshort(parts[-1]) if parts and "::" in parts[-1] and "<" not in parts[-1] else (parts[-1] if parts else "?")
+
+
 def cshort(path):
     """`a::b::Type::<X>::method` -> `Type::method` (generic args removed)"""
     out = []
@@ -422,6 +448,8 @@ class Norm:
             if T.is_empty_template(e) and e.get("x") is not None:
                 return ("tpl", "quote", "", [])
             name = cshort(c)
+            if name in GENERIC_SENSITIVE and e.get("gen"):
+                name = name + "<" + _last_generic(e["gen"]) + ">"
             args = [self._t(a) for a in e["args"]]
             if name in TRANSPARENT and len(args) == 1:
                 return args[0]
@@ -442,6 +470,8 @@ class Norm:
             return ("call", name, args)
         if k == "MethodCall":
             name = cshort(e.get("callee", "?::" + e["name"]))
+            if name in GENERIC_SENSITIVE and e.get("gen"):
+                name = name + "<" + _last_generic(e["gen"]) + ">"
             recv = self._t(e["recv"])
             args = [self._t(a) for a in e["args"]]
             if name in TRANSPARENT and not args:
@@ -589,6 +619,8 @@ def _is_unit(t):
         return _is_unit(t[2]) and _is_unit(t[3])
     if t[0] == "seq":
         return not t[1] and _is_unit(t[2])
+    if t[0] == "for":
+        return _is_unit(t[2])
     return False
 
 
@@ -662,7 +694,8 @@ def pat_repr(p):
     if k == "PExpr":
         e = p["e"]
         if e["k"] == "PLit":
-            return repr(e.get("v"))
+            v = e.get("v")
+            return ("true" if v else "false") if isinstance(v, bool) else repr(v)
         return cshort(e.get("path", "?"))
     if k == "PSlice":
         parts = [pat_repr(q) for q in p["before"]]
